@@ -17,6 +17,55 @@ ASSUMPTIONS = [
 ] + c06.ASSUMPTIONS[:1]
 
 
+def ready_on_satisfaction(chk: Check):
+    """dependencychanged: the last dependency becoming satisfied makes a WAITING job READY and wakes it; otherwise the state is not touched"""
+    tree = chk.tree
+    js = JobStates(tree)
+    f = tree.func("scheduler.base", "Job.dependencychanged")
+    g = CFG(f.node)
+
+    def classify(n):
+        t = src(n.ast)
+        if t == "status == DependencyStatus.FAIL":
+            return ("fail", True)
+        ts = js.test_set(n.ast, "self")
+        if ts is not None:
+            if ts == js.final:
+                return ("finished", True)
+            if ts == js.all - js.final:
+                return ("finished", False)
+            if ts == frozenset({"WAITING"}):
+                return ("waiting", True)
+            return None
+        if t == "self.unsatisfied == 0":
+            return ("zero", True)
+        return None
+
+    def events(n):
+        out = []
+        if n.kind == "stmt":
+            s = src(n.ast)
+            if s.startswith("self.state ="):
+                out.append("state " + s.split("=", 1)[1].strip())
+            if s == "self._readyEvent.set()":
+                out.append("wake")
+        return out
+
+    stop = lambda n: "exit" if n is g.exit else None
+    loc = chk.loc(f.module, f.node)
+    for zero, waiting in ((True, True), (True, False), (False, True)):
+        outs = walk_table(g, g.entry, classify, {"fail": False, "finished": not waiting, "waiting": waiting, "zero": zero}, events, stop)
+        for o in outs:
+            ev = list(o.events)
+            if zero and waiting:
+                ok = ev == ["state JobState.READY", "wake"] and not o.unknown
+                chk.require(ok, chk.fkey(f, "ready when satisfied"), f"the last dependency of a waiting job becoming satisfied does {ev or ['nothing']}"
+                            f"{' depending on ' + str([u[0] for u in o.unknown]) if o.unknown else ''}; expected: state READY, then the ready event (the job would otherwise wait forever)", loc)
+            else:
+                ok = not [e for e in ev if e.startswith("state")] and not o.unknown
+                chk.require(ok, chk.fkey(f, f"untouched when zero={zero} waiting={waiting}"), f"a non-failing notification with unsatisfied==0:{zero}, waiting:{waiting} does {ev}; the state must not change", loc)
+
+
 def r2_cancellation(chk: Check):
     tree = chk.tree
     js = JobStates(tree)
